@@ -364,6 +364,10 @@ pub fn reg_get(id: u64) -> Option<(Log, usize)> {
 pub const EVENT_CAP: usize = 200_000;
 pub static RUNAWAYS: AtomicU64 = AtomicU64::new(0);
 pub static UNATTRIBUTED_DEAD_LETTERS: AtomicU64 = AtomicU64::new(0);
+thread_local! {
+    /// SIM: the log of the scenario that is running on this thread (message drop witnesses report to it)
+    pub static CUR_LOG: std::cell::RefCell<Option<Log>> = const { std::cell::RefCell::new(None) };
+}
 pub static DL_HOOK: Mutex<Option<std::sync::Arc<dyn Fn() + Send + Sync>>> = Mutex::new(None);
 thread_local! {
     static IN_DL_HOOK: std::cell::Cell<bool> = const { std::cell::Cell::new(false) };
